@@ -290,6 +290,83 @@ theorem dcOneOne_sound (i j k l : Nat) (coef : GQ) (prior : Op) (hne : ¬ (i = k
               rw [add_comm' _ (den (phiF s u) prior), h0, add_comm'])
       rw [hz, add_zero']
 
+/-! ### the main loop on one-body operators -/
+
+/-- a one-body term `i^ j` -/
+def OneBody (t : Term) : Prop := ∃ i j, t = [(i, 1), (j, 0)]
+
+/-- `Σ_{b ∈ B} coef_a coef_b ⟨u| a b - b a |s⟩` -/
+def commRow (s u : Nat) (a : Term) (ca : GQ) (B : Op) (init : GQ) : GQ :=
+  B.foldl (fun acc (e : Term × GQ) => acc + pairComm s u a e.1 (ca * e.2)) init
+
+theorem pairComm_self (s u : Nat) (a : Term) (c : GQ) : pairComm s u a a c = 0 := by
+  unfold pairComm; apply GQ.ext <;> simp <;> grind
+
+/-- the body of the double loop of the diagonal-Coulomb commutator -/
+def dcStep (tol : Rat) (ta : Term) (ca : GQ) (acc : Op) (e : Term × GQ) : Op :=
+  let coef := ca * e.2
+  if ta == e.1 || ta.isEmpty || e.1.isEmpty then acc
+  else if ta.length == 4 && e.1.length == 4 && fIdx ta 0 == fIdx ta 2 && fIdx ta 1 == fIdx ta 3 then
+    dcTwoTwo ta e.1 coef acc
+  else if (e.1.length == 4 && ta.length == 2) || (ta.length == 4 && e.1.length == 2) then
+    dcOneTwo ta e.1 coef acc
+  else if ta.length == 2 && e.1.length == 2 then
+    dcOneOne ta e.1 coef acc
+  else
+    let additional : Op := Dict.set (Dict.set [] (ta ++ e.1) coef) (e.1 ++ ta) (-coef)
+    iadd tol acc (normalOrdered tol additional)
+
+theorem dcCommutator_eq (tol : Rat) (A B prior : Op) :
+    dcCommutator tol A B prior = A.foldl (fun acc (ea : Term × GQ) => B.foldl (dcStep tol ea.1 ea.2) acc) prior := rfl
+
+theorem dcStep_oneBody (tol : Rat) (i j k l : Nat) (ca cb : GQ) (acc : Op) :
+    dcStep tol [(i, 1), (j, 0)] ca acc ([(k, 1), (l, 0)], cb) =
+      if i = k ∧ j = l then acc else dcOneOne [(i, 1), (j, 0)] [(k, 1), (l, 0)] (ca * cb) acc := by
+  by_cases hsame : i = k ∧ j = l
+  · obtain ⟨rfl, rfl⟩ := hsame
+    simp [dcStep]
+  · have hneq : ([(i, 1), (j, 0)] == [(k, 1), (l, 0)]) = false := by
+      simp only [beq_eq_false_iff_ne, ne_eq, List.cons.injEq, Prod.mk.injEq, and_true, not_and]
+      intro h1 h2; exact hsame ⟨h1, h2⟩
+    simp [dcStep, hneq, hsame]
+
+theorem dcInner_oneBody (tol : Rat) (s u : Nat) (ta : Term) (ca : GQ) (ha : OneBody ta) (B : Op)
+    (hB : ∀ e ∈ B, OneBody e.1) : ∀ (acc : Op),
+    den (phiF s u) (B.foldl (dcStep tol ta ca) acc) = commRow s u ta ca B (den (phiF s u) acc) := by
+  obtain ⟨i, j, rfl⟩ := ha
+  induction B with
+  | nil => intro acc; rfl
+  | cons e B ih =>
+    intro acc
+    obtain ⟨k, l, hk⟩ := hB e (by simp)
+    obtain ⟨tb, cb⟩ := e
+    simp only at hk
+    subst hk
+    simp only [List.foldl_cons, commRow]
+    have ihB := ih (fun e' he' => hB e' (by simp [he']))
+    simp only [commRow] at ihB
+    rw [ihB, dcStep_oneBody]
+    by_cases hsame : i = k ∧ j = l
+    · obtain ⟨rfl, rfl⟩ := hsame
+      simp only [and_self, if_true]
+      rw [pairComm_self, add_zero']
+    · simp only [hsame, if_false]
+      rw [dcOneOne_sound i j k l _ acc hsame s u]
+
+/-- **the diagonal-Coulomb commutator on one-body operators**: if every term of `A` and `B` is a
+one-body term `i^ j`, every matrix element of the result is that of `prior` plus
+`Σ_{a ∈ A} Σ_{b ∈ B} c_a c_b ⟨u| a b - b a |s⟩` -/
+theorem dcCommutator_oneBody (tol : Rat) (s u : Nat) (A B : Op) (hA : ∀ e ∈ A, OneBody e.1) (hB : ∀ e ∈ B, OneBody e.1) :
+    ∀ (prior : Op), den (phiF s u) (dcCommutator tol A B prior) =
+      A.foldl (fun acc (e : Term × GQ) => commRow s u e.1 e.2 B acc) (den (phiF s u) prior) := by
+  intro prior
+  rw [dcCommutator_eq]
+  induction A generalizing prior with
+  | nil => rfl
+  | cons e A ih =>
+    simp only [List.foldl_cons]
+    rw [ih (fun e' he' => hA e' (by simp [he'])), dcInner_oneBody tol s u e.1 e.2 (hA e (by simp)) B hB prior]
+
 end C07F
 end Proofs
 end OFV
